@@ -147,10 +147,14 @@ fn to_hash(m: &BTreeMap<u64, v1::Function>, rng: &mut Rng) -> HashMap<u64, v1::F
 impl C04 {
     fn function_case(&self, rng: &mut Rng, mon: &mut Monitor) {
         let regime = if rng.chance(4, 5) { Regime::D } else { Regime::R };
-        let np = 2 + rng.usize_below(4);
+        let long = rng.chance(1, 30);
+        let np = if long { 8 + rng.usize_below(30) } else { 2 + rng.usize_below(4) };
         let pool = id_pool(rng, np, true);
         let mut cfg = FnCfg::new(pool.clone(), regime);
-        cfg.max_terms = 5;
+        cfg.max_terms = if long { 100 } else { 5 };
+        if long {
+            cfg.max_degree = 2;
+        }
         let f = gen_function(rng, &cfg);
         let vname = variant_name(&f);
         // 1..4 entries; occasionally the empty map (must return the function unchanged)
@@ -454,6 +458,19 @@ impl C04 {
                 }
             }
             (n, e)
+        } else if rng.chance(1, 40) {
+            // a long chain (depth 33..160) in a random order: needs many retry passes
+            let n = 33 + rng.usize_below(128);
+            let mut perm: Vec<usize> = (0..n).collect();
+            rng.shuffle(&mut perm);
+            let mut e = vec![];
+            for w in perm.windows(2) {
+                e.push((w[0], w[1]));
+            }
+            if rng.chance(1, 6) {
+                e.push((perm[n - 1], perm[rng.usize_below(n - 1)])); // closed: must be rejected
+            }
+            (n, e)
         } else {
             let n = 4 + rng.usize_below(if env.tier == Tier::Thorough { 4 } else { 2 });
             let mut e = vec![];
@@ -515,11 +532,12 @@ impl C04 {
             }
             for (a, b) in &edges {
                 if *a == i {
-                    terms.push((dep_id(*b), small_coef(rng)));
+                    let c = if n > 8 { *rng.pick(&[1.0, -1.0]) } else { small_coef(rng) };
+                    terms.push((dep_id(*b), c));
                 }
             }
             if dangling && i == 0 {
-                terms.push((if dangling_kind == 0 { 777 } else { 50 }, 1.0));
+                terms.push((if dangling_kind == 0 { 777_777 } else { 50_000 }, 1.0));
             }
             rng.shuffle(&mut terms);
             let f = if rng.chance(1, 4) && terms.len() >= 2 {
@@ -541,7 +559,7 @@ impl C04 {
         let fixed_value = rng.range(-3, 3) as f64;
         fixed.substituted_value = Some(fixed_value);
         inst.decision_variables.push(fixed);
-        inst.decision_variables.push(dvar(50, KIND_CONTINUOUS, Some((1.0, 2.0)))); // never given a value
+        inst.decision_variables.push(dvar(50_000, KIND_CONTINUOUS, Some((1.0, 2.0)))); // never given a value
         inst.objective = Some(f_linear(linear(vec![(0, 1.0)], 0.0)));
         inst.sense = SENSE_MIN;
         let st: BTreeMap<u64, f64> = indep.iter().map(|i| (*i, rng.range(-3, 3) as f64)).collect();
@@ -602,11 +620,11 @@ impl C04 {
                     Err(_) => mon.violation(format!("C04.bad-dependencies-accepted:{}", if dangling { "dangling" } else { "cyclic" }), format!("evaluate returned a Solution although the dependencies are cyclic or refer to variables without value\nreported state={:?}\n{}", sol.state.as_ref().map(sorted_state), ctx())),
                     Ok(values) => {
                         let rep = sol.state.as_ref().map(sorted_state).unwrap_or_default();
-                        for (id, (v, cert)) in values {
+                        for (id, (v, cert, mag)) in values {
                             match rep.get(id) {
                                 None => mon.violation("C04.dependent-not-reported", format!("dependent variable {id} absent from the reported state\n{}", ctx())),
                                 Some(x) => {
-                                    let ok = if *cert { f64_eq_q(*x, v) } else { (q(*x) - v).abs() <= (v.abs() + qi(1)) * q(1e-9) };
+                                    let ok = if *cert { f64_eq_q(*x, v) } else { (q(*x) - v).abs() <= (mag + v.abs() + qi(1)) * q(1e-9) };
                                     if !ok {
                                         mon.violation("C04.dependent-value", format!("dependent variable {id} reported {x:e}, exact {v} ({:e})\n{}", q_to_f64(v), ctx()));
                                     }
